@@ -121,7 +121,8 @@ func valid(yr int, mon int, day int, hr int, min int, sec int, ms int) bool {
 		!mmSecond.valid(sec) || !mmMillisecond.valid(ms) {
 		return false
 	}
-	t := goTime(yr, mon, day, 0, 0, 0, 0)
+	// use UTC because midnight does not exist on some days in some time zones
+	t := time.Date(yr, time.Month(mon), day, 0, 0, 0, 0, time.UTC)
 	return t.Year() == yr && int(t.Month()) == mon && t.Day() == day
 }
 
